@@ -476,7 +476,8 @@ def record_elements_cli(case):
     import tempfile
     from rnapolis import motif_extractor
     c = dict(case)
-    c["id"] = case["id"] + "-cli"
+    c["id"] = case["id"] + "-cli" + "".join("+" + o[9:12] for o in case.get("opts", []))
+    c["opts"] = list(case.get("opts", []))
     c["source"] = "motif_extractor.main"
     b = _bpseq(case)
     el = {"err": "", "stems": [], "singles": [], "hairpins": [], "loops": []}
@@ -486,7 +487,7 @@ def record_elements_cli(case):
         f.flush()
         argv, buf = sys.argv, io.StringIO()
         try:
-            sys.argv = ["motif_extractor", "--bpseq", f.name]
+            sys.argv = ["motif_extractor", "--bpseq", f.name] + list(case.get("opts", []))
             with contextlib.redirect_stdout(buf):
                 motif_extractor.main()
         except BaseException as e:
